@@ -6,7 +6,11 @@ M: TLC explores all interleavings of spec/Slot.tla (3 racing initialisers, 2-3 o
    reads, two-step publication, last writer wins) must each be rejected (sensitivity).
 T: harness/vh_slot runs many rounds of real threads on a fresh AmbientSlot::new() per round
    (Setup::try_init_slot / init_slot under catch_unwind / AmbientSlot::init racing with
-   is_enabled / emit! / span / flush / component probes), logging call start and call end
+   is_enabled / emit! / span / flush / component probes; the configuration built in every
+   public form: Setup::emit_to / and_emit_to / both / map_emitter, Runtime::build /
+   Setup::init_runtime / Runtime::default + with_*; what a Setup form hands back is used -
+   Init::get / blocking_flush / flush_on_drop, the guard dropped normally or by an unwinding
+   panic - by the winner and guarded by a loser), logging call start and call end
    with numbers from one SeqCst counter; plus the process-global slot, one round per child
    process.  TLC decides with spec/SlotTrace.tla whether every round is a behaviour of
    Slot.tla (the unlogged TrySet / Read steps are placed by TLC between call and return).
@@ -20,6 +24,9 @@ import vlib
 M_ACTIONS = ["DoInitCall", "DoTrySet", "DoInitRet", "DoObsCall", "DoRead", "DoObsReturn"]
 HANDLE_ENTRY_POINTS = ["try_init_slot", "init_slot", "try_init", "init", "try_init_internal",
                        "init_internal"]
+SETUP_FORMS = ["emit_to", "and_emit_to", "emit_to_and", "map_emitter"]
+RUNTIME_FORMS = ["build", "init_runtime", "default_with", "init_runtime_and"]
+HANDLE_OPS = ["h_probe", "h_flush", "h_guard_drop", "h_guard_unwind"]
 ENTRY_POINTS = ["try_init_slot", "init_slot", "slot_init", "try_init", "init",
                 "try_init_internal", "init_internal", "internal_slot_init"]
 
@@ -76,7 +83,7 @@ def _report_rejection(ctx, trace, label, last, reason, origin):
     if ok:
         raise vlib.ToolError("round %d of %s is rejected in context but accepted alone" % (last, trace))
     evs = [json.loads(e) for e in events]
-    kinds = {e["i"]: e["k"] for e in evs if e["e"] == "InitCall"}
+    kinds = {e["i"]: "%s/%s" % (e["k"], e.get("f")) for e in evs if e["e"] == "InitCall"}
     inits = ["%d:%s=%s%s" % (e["i"], kinds.get(e["i"], "?"), e["r"], "" if e.get("own", True) else "(foreign refs)")
              for e in evs if e["e"] == "InitRet"]
     pending, obs = {}, []
@@ -86,12 +93,12 @@ def _report_rejection(ctx, trace, label, last, reason, origin):
         elif e["e"] == "ObsRet":
             c = pending.pop(e["o"], {"op": "?"})
             if c["op"] == "flush":
-                d = "flush(%s,%s)->%s/emitter:%s" % (c.get("via"), c.get("tmo"), e["fl"],
-                                                     {0: "not asked", 1: False, 2: True}.get(e.get("fa")))
+                d = "flush(%s,%s)->%s/destinations %s answered %s budget %s" % (
+                    c.get("via"), c.get("tmo"), e["fl"], e.get("fls"), e.get("fas"), e.get("fb"))
             elif c["op"] == "is_enabled":
                 d = "is_enabled->%s" % e["en"]
             else:
-                d = "%s->%s" % (c["op"], [t for t in e["tags"] if t != 99])
+                d = "%s->%s x%s" % (c["op"], [t for t in e["tags"] if t != 99], e.get("ne"))
             obs.append("%d:%s%s" % (e["o"], d, " PANIC" if e["pan"] else ""))
     hcall = {}
     for e in evs:
@@ -99,10 +106,9 @@ def _report_rejection(ctx, trace, label, last, reason, origin):
             hcall[e["i"]] = e
         elif e["e"] == "HRet":
             c = hcall.pop(e["i"], {"op": "?"})
-            obs.append("init%d:%s(%s)->tags %s fl=%s emitter:%s asked %sx%s" % (
-                e["i"], c["op"], c.get("tmo", ""), [t for t in e["tags"] if t != 99], e["fl"],
-                {0: "not asked", 1: False, 2: True}.get(e.get("fa")), e.get("nfl"),
-                " PANIC" if e["pan"] else ""))
+            obs.append("init%d:%s(%s)->tags %s x%s fl=%s destinations %s answered %s budget %s%s" % (
+                e["i"], c["op"], c.get("tmo", ""), [t for t in e["tags"] if t != 99], e.get("ne"),
+                e["fl"], e.get("fls"), e.get("fas"), e.get("fb"), " PANIC" if e["pan"] else ""))
     hangs = ["HANG in %s" % e["in"] for e in evs if e["e"] == "Hang"]
     sig = "C20 %s: round rejected (%s); results %s; observations %s" % (
         origin, reason1 or reason, ",".join(inits), ("; ".join(obs + hangs))[:500])
@@ -153,7 +159,7 @@ def run(ctx):
             return
         ctx.require_actions(r, M_ACTIONS, cfg)
     # the post-initialisation phase: operations of the winner through its Init handle
-    r = ctx.tlc("Slot", "Slot_handle.cfg", workers=2, timeout=600, xmx="3g")
+    r = ctx.tlc("Slot", "Slot_handle.cfg", workers=4, timeout=600, xmx="3g")
     if r.violated:
         ctx.spec_violation(r, "Slot.tla: %s violated (handle phase)" % r.violated)
         return
@@ -169,7 +175,7 @@ def run(ctx):
     # ---- T: real executions
     rounds = 3000 if ctx.quick else 50000
     shards = 3 if ctx.quick else 10
-    children = 80 if ctx.quick else 300
+    children = 160 if ctx.quick else 400
     tdir = os.path.join(ctx.out, "traces")
     os.makedirs(tdir, exist_ok=True)
     # exit code 3: a call into the code under test did not return within the harness's
@@ -198,7 +204,8 @@ def run(ctx):
         for fu in concurrent.futures.as_completed(futs):
             results[futs[fu][0]] = (futs[fu], fu.result())
     stats = {"rounds": 0, "events": 0, "rounds_observing_both_sides": 0, "init_panics": 0,
-             "rounds_with_3_racers": 0, "entry_points": {}, "handle_ops": {}}
+             "rounds_with_3_racers": 0, "entry_points": {}, "handle_ops": {}, "forms": {},
+             "lost_guards": {}, "flush_answers": {}}
     for label, ((_, path, origin), (ok, last, reason)) in sorted(results.items()):
         if origin == "selftest":
             if not results[jobs[0][0]][1][0]:
@@ -224,11 +231,20 @@ def run(ctx):
     # observed afterwards (vacuity guard over the entry points)
     missing = [k for k in ENTRY_POINTS
                if not all(stats["entry_points"].get(k, {}).get(f) for f in ("won", "lost", "observed"))]
-    hmissing = ["%s/%s" % (k, op) for k in HANDLE_ENTRY_POINTS
-                for op in ("h_probe", "h_flush", "h_guard_drop")
+    hmissing = ["%s/%s" % (k, op) for k in HANDLE_ENTRY_POINTS for op in HANDLE_OPS
                 if not stats["handle_ops"].get("%s/%s" % (k, op))]
+    # every form of building the configuration seen winning, losing and observed; every form's
+    # handle flushed and its guard dropped both ways; a loser's guard dropped both ways; a
+    # two-destination emitter seen answering (true, false) and (false, true) to one flush
+    hmissing += ["form %s %s" % (f, w) for f in SETUP_FORMS + RUNTIME_FORMS
+                 for w in ("won", "lost", "observed") if not stats["forms"].get(f, {}).get(w)]
+    hmissing += ["form %s/%s" % (f, op) for f in SETUP_FORMS for op in HANDLE_OPS[1:]
+                 if not stats["forms"].get(f, {}).get(op)]
+    hmissing += ["lost/%s" % op for op in HANDLE_OPS[2:] if not stats["lost_guards"].get(op)]
+    hmissing += ["flush answers %s" % a for a in ("TF", "FT", "TT", "FF", "T", "F")
+                 if not stats["flush_answers"].get(a)]
     if not ctx.violations and hmissing:
-        raise vlib.ToolError("Init handle operations not exercised: %s" % hmissing)
+        raise vlib.ToolError("Init handle operations / forms not exercised: %s" % hmissing)
     if not ctx.violations and missing:
         raise vlib.ToolError("initialisation entry points not exercised (won/lost/observed): %s; %s"
                              % (missing, stats["entry_points"]))
@@ -247,14 +263,23 @@ def run(ctx):
         "init_internal / AmbientInternalSlot::init on the internal slot (global slots: one round "
         "per child process); each must be seen winning, losing and observed afterwards",
         "the winner of a Setup form uses its Init handle afterwards: Init::get (five probes), "
-        "Init::blocking_flush, Init::flush_on_drop + InitGuard::inner + drop of the guard, with "
-        "the seeded timeouts; each must reach the caller's own = the installed configuration, a "
-        "flush asking the emitter exactly once and returning its answer",
+        "Init::blocking_flush, Init::flush_on_drop + InitGuard::inner + drop of the guard "
+        "(normally, or by a harness panic unwinding through its scope), with the seeded timeouts; "
+        "each must reach the caller's own = the installed configuration, a flush asking every "
+        "destination of the emitter exactly once, in order, and returning the conjunction of their "
+        "answers; a loser of a try_ form guards the None it was handed the same way: nothing is reached",
+        "the configuration is built in every public form (Setup::emit_to / and_emit_to / emit_to + "
+        "and_emit_to / map_emitter for the Setup entry points; Runtime::build / Setup::init_runtime / "
+        "Runtime::default + with_* / init_runtime over two emitters for the slots' own init); the "
+        "forms differ only in the number of destinations (1 or 2, each with a planned flush answer) "
+        "and in whether the budget is split by an And: the sum of the budgets the destinations are "
+        "handed must not exceed the caller's timeout, and equal it when nothing splits it",
         "each of the five tagged components answers with a non-default value (the filter rejects "
         "a marker module the empty filter accepts)",
         "flush observations use seeded timeouts {0, 1 ns, 1 ms, 1 s, Duration::MAX} through "
         "get().emitter(), the runtime as Emitter and (global slot) emit::blocking_flush; on an "
-        "initialised slot the value returned must be the tagged emitter's answer",
+        "initialised slot the value returned must be the conjunction of the answers of the "
+        "installed emitter's destinations",
         "panics of the code under test are caught per call and are the logged result; a call "
         "that does not return within 10 s (harness watchdog) is reported as a violation",
         "Slot.tla checked exhaustively only within: " + "; ".join(
@@ -297,7 +322,7 @@ def _stats(path, stats, ctx):
                 if cur is not None:
                     _close(cur, stats, ctx)
                 cur = {"sides": set(), "inits": 0, "lines": [], "kinds": {}, "winner": None,
-                       "obs_installed": False}
+                       "obs_installed": False, "forms": {}, "rets": {}, "wform": None}
                 stats["rounds"] += 1
             elif line.startswith('{"e":"ObsRet"'):
                 e = json.loads(line)
@@ -308,21 +333,37 @@ def _stats(path, stats, ctx):
                     cur["obs_installed"] = True
             elif line.startswith('{"e":"HCall"'):
                 e = json.loads(line)
-                k = "%s/%s" % (cur["kinds"].get(e["i"], "?"), e["op"])
-                stats["handle_ops"][k] = stats["handle_ops"].get(k, 0) + 1
+                if cur["rets"].get(e["i"]) in ("some", "ok"):
+                    k = "%s/%s" % (cur["kinds"].get(e["i"], "?"), e["op"])
+                    stats["handle_ops"][k] = stats["handle_ops"].get(k, 0) + 1
+                    fs = stats["forms"].setdefault(cur["forms"].get(e["i"], "?"), {})
+                    fs[e["op"]] = fs.get(e["op"], 0) + 1
+                else:
+                    stats["lost_guards"][e["op"]] = stats["lost_guards"].get(e["op"], 0) + 1
+            elif line.startswith('{"e":"HRet"'):
+                e = json.loads(line)
+                if e["fas"]:
+                    a = "".join("T" if x else "F" for x in e["fas"])
+                    stats["flush_answers"][a] = stats["flush_answers"].get(a, 0) + 1
             elif line.startswith('{"e":"InitCall"'):
                 e = json.loads(line)
                 cur["kinds"][e["i"]] = e["k"]
+                cur["forms"][e["i"]] = e["f"]
             elif line.startswith('{"e":"InitRet"'):
                 cur["inits"] += 1
                 e = json.loads(line)
                 k = cur["kinds"].get(e["i"], "?")
+                cur["rets"][e["i"]] = e["r"]
                 ep = stats["entry_points"].setdefault(k, {"won": 0, "lost": 0, "observed": 0})
+                fs = stats["forms"].setdefault(cur["forms"].get(e["i"], "?"), {})
                 if e["r"] in ("some", "ok"):
                     ep["won"] += 1
+                    fs["won"] = fs.get("won", 0) + 1
                     cur["winner"] = k
+                    cur["wform"] = cur["forms"].get(e["i"], "?")
                 else:
                     ep["lost"] += 1
+                    fs["lost"] = fs.get("lost", 0) + 1
                 if '"r":"panic"' in line:
                     stats["init_panics"] += 1
             if len(cur["lines"]) < 60:
@@ -334,6 +375,8 @@ def _stats(path, stats, ctx):
 def _close(cur, stats, ctx):
     if cur["winner"] and cur["obs_installed"]:
         stats["entry_points"][cur["winner"]]["observed"] += 1
+        fs = stats["forms"][cur["wform"]]
+        fs["observed"] = fs.get("observed", 0) + 1
     if len(cur["sides"]) == 2:
         stats["rounds_observing_both_sides"] += 1
         if cur["inits"] == 3:
